@@ -314,6 +314,26 @@ func (e *env) pedersen() {
 			sw[0], sw[1] = sw[1], sw[0]
 			e.forged(opB, "library-setup/proofs-swapped", dB, func() error { return e.in.PedBatchVerify(vks, cs, sw, rho) })
 		}
+		// points of the curve outside G1 (commitment or proof shifted by a point of cofactor order) are not
+		// commitments: the pairing cannot see the shift, only the subgroup checks can - at every position and in
+		// both modes (one proof per commitment, one folded proof)
+		if e.t1 != nil {
+			for _, i := range []int{0, 1, nb - 1} {
+				if i >= nb || (i == 1 && nb-1 == 1) {
+					continue
+				}
+				ct := append([]any(nil), cs...)
+				ct[i] = oadd(e.g1, cs[i], e.t1)
+				pt := append([]any(nil), ps...)
+				pt[i] = oadd(e.g1, ps[i], e.t1)
+				e.forged(opB, fmt.Sprintf("library-setup/separate-proofs/commitment-plus-cofactor-torsion/at=%s", posClass(i, nb)), dB, func() error { return e.in.PedBatchVerify(vks, ct, ps, rho) })
+				e.forged(opB, fmt.Sprintf("library-setup/folded-proof/commitment-plus-cofactor-torsion/at=%s", posClass(i, nb)), dB, func() error { return e.in.PedBatchVerify(vks, ct, []any{Pf}, rho) })
+				e.forged(opB, fmt.Sprintf("library-setup/separate-proofs/pok-plus-cofactor-torsion/at=%s", posClass(i, nb)), dB, func() error { return e.in.PedBatchVerify(vks, cs, pt, rho) })
+			}
+			e.forged(opB, "library-setup/folded-proof/pok-plus-cofactor-torsion", dB, func() error { return e.in.PedBatchVerify(vks, cs, []any{oadd(e.g1, Pf, e.t1)}, rho) })
+			e.forged(opV, "library-setup/commitment-plus-cofactor-torsion", dB, func() error { return e.in.PedVerify(vk, oadd(e.g1, Cf, e.t1), Pf) })
+			e.forged(opV, "library-setup/pok-plus-cofactor-torsion", dB, func() error { return e.in.PedVerify(vk, Cf, oadd(e.g1, Pf, e.t1)) })
+		}
 	}
 
 	// ---------- C. BatchVerifyMultiVk with several trapdoor keys sharing G ----------
